@@ -1,4 +1,468 @@
 package main
 
-func runRouter(behavioursPath, tracePath string) { die("not implemented") }
-func runRing(behavioursPath, tracePath string)   { die("not implemented") }
+import (
+	"context"
+	"encoding/json"
+	"fmt"
+	"os"
+	"regexp"
+	"sort"
+	"strconv"
+	"sync"
+	"time"
+
+	"github.com/tochemey/goakt/v4/actor"
+	"github.com/tochemey/goakt/v4/hash"
+	"github.com/tochemey/goakt/v4/log"
+	"github.com/tochemey/goakt/v4/verifharness/vtrace"
+)
+
+// ---------------------------------------------------------------------------------------------
+// recording routees: the router creates them by reflection, so they report to a package-level log
+// ---------------------------------------------------------------------------------------------
+
+type routedMsg struct {
+	ID  int
+	Key string
+}
+
+type boomMsg struct{}
+
+type recorder struct {
+	mu  sync.Mutex
+	got map[string][]int // routee name -> message ids in arrival order
+}
+
+var rec = &recorder{got: map[string][]int{}}
+
+func (r *recorder) add(name string, id int) {
+	r.mu.Lock()
+	r.got[name] = append(r.got[name], id)
+	r.mu.Unlock()
+}
+
+// receivers returns the names of the routees that recorded message id (with multiplicity).
+func (r *recorder) receivers(prefix string, id int) []string {
+	r.mu.Lock()
+	defer r.mu.Unlock()
+	var out []string
+	for name, ids := range r.got {
+		if len(name) < len(prefix) || name[:len(prefix)] != prefix {
+			continue
+		}
+		for _, x := range ids {
+			if x == id {
+				out = append(out, name)
+			}
+		}
+	}
+	return out
+}
+
+func (r *recorder) total(name string) int {
+	r.mu.Lock()
+	defer r.mu.Unlock()
+	return len(r.got[name])
+}
+
+func (r *recorder) reset() {
+	r.mu.Lock()
+	r.got = map[string][]int{}
+	r.mu.Unlock()
+}
+
+// Routee is the recording routee.
+type Routee struct{}
+
+func (*Routee) PreStart(*actor.Context) error { return nil }
+func (*Routee) PostStop(*actor.Context) error { return nil }
+func (*Routee) Receive(ctx *actor.ReceiveContext) {
+	switch m := ctx.Message().(type) {
+	case *routedMsg:
+		rec.add(ctx.Self().Name(), m.ID)
+	case *boomMsg:
+		panic("routee failure requested by the harness")
+	default:
+		ctx.Unhandled()
+	}
+}
+
+// ---------------------------------------------------------------------------------------------
+// table hasher: the model's tiny hash space injected into the real ring
+// ---------------------------------------------------------------------------------------------
+
+var vnodeRe = regexp.MustCompile(`Routee(\d+)#(\d+)$`)
+
+type tableHasher struct {
+	vh map[int][]int  // routee index -> points of its virtual nodes
+	kh map[string]int // routing key -> hash
+}
+
+func (t *tableHasher) HashCode(b []byte) uint64 {
+	s := string(b)
+	if m := vnodeRe.FindStringSubmatch(s); m != nil {
+		r, _ := strconv.Atoi(m[1])
+		i, _ := strconv.Atoi(m[2])
+		if pts, ok := t.vh[r]; ok && i < len(pts) {
+			return uint64(pts[i])
+		}
+	}
+	if h, ok := t.kh[s]; ok {
+		return uint64(h)
+	}
+	return hash.DefaultHasher().HashCode(b)
+}
+
+// ---------------------------------------------------------------------------------------------
+// behaviours
+// ---------------------------------------------------------------------------------------------
+
+// rop is one element of a Gen_Router history: the first one is the Init record, the others are `last`.
+type rop struct {
+	Op       string           `json:"op"`
+	R        int              `json:"r"`
+	Key      string           `json:"key"`
+	D        int              `json:"d"`
+	To       []int            `json:"to"`
+	Strategy string           `json:"strategy"`
+	Pool     int              `json:"pool"`
+	Preset   int              `json:"preset"`
+	VN       int              `json:"vn"`
+	VH       map[string][]int `json:"vh"`
+	KH       map[string]int   `json:"kh"`
+	Hasher   string           `json:"hasher"` // "table" (default) or "default" (xxh3, 150 virtual nodes unless vn > 0)
+	Rep      int              `json:"rep,omitempty"`
+}
+
+const maxPool = 6
+
+type routerRun struct {
+	sys      actor.ActorSystem
+	name     string
+	pid      *actor.PID
+	strategy string
+	w        *vtrace.Writer
+	nextID   int
+	keys     []string
+	drift    *int
+	known    map[int]*actor.PID
+}
+
+func waitFor(d time.Duration, cond func() bool) bool {
+	deadline := time.Now().Add(d)
+	for i := 0; ; i++ {
+		if cond() {
+			return true
+		}
+		if time.Now().After(deadline) {
+			return false
+		}
+		if i < 200 {
+			time.Sleep(20 * time.Microsecond)
+		} else {
+			time.Sleep(500 * time.Microsecond)
+		}
+	}
+}
+
+// routee returns the latest known PID of routee i. PIDs are learnt from the router's own map
+// (verif shim) and from the actor tree; liveness is always asked of the PID itself, because the
+// tree can lag behind (asynchronous death watch) or, rarely, miss children spawned during the
+// parent's PostStart.
+func (rr *routerRun) routee(i int) *actor.PID {
+	rr.learn()
+	return rr.known[i]
+}
+
+func (rr *routerRun) learn() {
+	for _, p := range actor.VerifRouterRoutees(rr.pid) {
+		if i := rr.index(p.Name()); i >= 0 {
+			rr.known[i] = p
+		}
+	}
+	for i := 0; i < maxPool; i++ {
+		if p, ok := actor.VerifRoutee(rr.sys, rr.name, i); ok && p != nil && p.IsRunning() {
+			rr.known[i] = p
+		}
+	}
+}
+
+// inTree reports whether a routee named like routee i is still registered in the actor tree.
+func (rr *routerRun) inTree(i int) bool {
+	p, ok := actor.VerifRoutee(rr.sys, rr.name, i)
+	return ok && p != nil
+}
+
+func (rr *routerRun) alive() []int {
+	rr.learn()
+	out := []int{}
+	for i := 0; i < maxPool; i++ {
+		if p := rr.known[i]; p != nil && p.IsRunning() {
+			out = append(out, i)
+		}
+	}
+	return out
+}
+
+func (rr *routerRun) index(name string) int {
+	pre := rr.name + "Routee"
+	if len(name) > len(pre) && name[:len(pre)] == pre {
+		if i, err := strconv.Atoi(name[len(pre):]); err == nil {
+			return i
+		}
+	}
+	return -1
+}
+
+func (rr *routerRun) indices(names []string) []int {
+	out := make([]int, 0, len(names))
+	for _, n := range names {
+		out = append(out, rr.index(n))
+	}
+	sort.Ints(out)
+	return out
+}
+
+// settle waits until the router has handled everything it was sent and is running (or stopped for good).
+func (rr *routerRun) settle() {
+	ok := waitFor(5*time.Second, func() bool {
+		if !actor.VerifQuiescent(rr.pid) {
+			return false
+		}
+		// a panic in the router's handler suspends it until its supervisor resumes it
+		return !rr.pid.IsSuspended()
+	})
+	if !ok {
+		*rr.drift++
+	}
+}
+
+func (rr *routerRun) settleRoutees() {
+	for i := 0; i < maxPool; i++ {
+		if p := rr.routee(i); p != nil && p.IsRunning() {
+			waitFor(5*time.Second, func() bool { return actor.VerifQuiescent(p) || !p.IsRunning() })
+		}
+	}
+}
+
+func (rr *routerRun) emit(o rop, to []int, extra map[string]any) {
+	members, pool := actor.VerifRouterMembers(rr.pid)
+	c := actor.VerifRouterCounter(rr.pid)
+	ev := map[string]any{"op": o.Op, "r": o.R, "key": o.Key, "d": o.D, "to": to,
+		"map": rr.indices(members), "alive": rr.alive(), "hi": c >> 16, "lo": c & 0xffff,
+		"up": rr.pid.IsRunning(), "pool": pool}
+	if rr.strategy == "hash" {
+		owners := map[string]int{}
+		for _, k := range rr.keys {
+			owners[k] = rr.index(actor.VerifRouterRingOwner(rr.pid, k))
+		}
+		ev["owner"] = owners
+	}
+	for k, v := range extra {
+		ev[k] = v
+	}
+	rr.w.Raw(ev)
+}
+
+func runRouter(behavioursPath, tracePath string) {
+	behaviours, err := vtrace.ReadLines[[]rop](behavioursPath)
+	if err != nil {
+		die("%v", err)
+	}
+	w, err := vtrace.Create(tracePath)
+	if err != nil {
+		die("%v", err)
+	}
+	ctx := context.Background()
+	sys, err := actor.NewActorSystem("verifrouting", actor.WithLogger(log.DiscardLogger))
+	if err != nil {
+		die("%v", err)
+	}
+	if err := sys.Start(ctx); err != nil {
+		die("%v", err)
+	}
+	drift := 0
+	sent := 0
+	orphanRetries := 0
+	for bi, b := range behaviours {
+		if len(b) == 0 || b[0].Op != "Init" {
+			die("behaviour %d does not start with Init", bi)
+		}
+		in := b[0]
+		rec.reset()
+		name := fmt.Sprintf("rt%d", bi)
+		var opts []actor.RouterOption
+		keys := []string{}
+		switch in.Strategy {
+		case "rr":
+			opts = append(opts, actor.WithRoutingStrategy(actor.RoundRobinRouting))
+		case "random":
+			opts = append(opts, actor.WithRoutingStrategy(actor.RandomRouting))
+		case "fanout":
+			opts = append(opts, actor.WithRoutingStrategy(actor.FanOutRouting))
+		case "hash":
+			opts = append(opts, actor.WithConsistentHashRouter(func(m any) string {
+				if rm, ok := m.(*routedMsg); ok && rm.Key != "-" {
+					return rm.Key
+				}
+				return ""
+			}))
+			if in.Hasher != "default" {
+				th := &tableHasher{vh: map[int][]int{}, kh: in.KH}
+				for k, v := range in.VH {
+					i, _ := strconv.Atoi(k)
+					th.vh[i] = v
+				}
+				opts = append(opts, actor.WithConsistentHashHasher(th))
+			}
+			if in.VN > 0 {
+				opts = append(opts, actor.WithConsistentHashVirtualNodes(in.VN))
+			}
+			for k := range in.KH {
+				keys = append(keys, k)
+			}
+			sort.Strings(keys)
+		default:
+			die("unknown strategy %q", in.Strategy)
+		}
+		var pid *actor.PID
+		var rr *routerRun
+		for attempt := 0; ; attempt++ {
+			var err error
+			pid, err = sys.SpawnRouter(ctx, name, in.Pool, &Routee{}, opts...)
+			if err != nil {
+				die("spawn router: %v", err)
+			}
+			rr = &routerRun{sys: sys, name: name, pid: pid, strategy: in.Strategy, w: w, keys: keys, drift: &drift, known: map[int]*actor.PID{}}
+			// the router spawns its routees while handling PostStart
+			if !waitFor(10*time.Second, func() bool {
+				if !actor.VerifQuiescent(pid) {
+					return false
+				}
+				m, _ := actor.VerifRouterMembers(pid)
+				return len(m) == in.Pool
+			}) {
+				die("router %s did not start its routees", name)
+			}
+			// goakt spawn race (outside C21): children spawned from PostStart can miss the actor tree when the
+			// parent is not attached yet; supervision and Stop do not reach such routees. Start over.
+			registered := true
+			for i := 0; i < in.Pool; i++ {
+				registered = registered && rr.inTree(i)
+			}
+			if registered || attempt >= 5 {
+				if !registered {
+					drift++
+				}
+				break
+			}
+			orphanRetries++
+			for _, p := range actor.VerifRouterRoutees(pid) {
+				_ = actor.Tell(ctx, p, &actor.PoisonPill{})
+			}
+			_ = pid.Shutdown(ctx)
+			name = fmt.Sprintf("rt%dx%d", bi, attempt+1)
+		}
+		rr.settleRoutees()
+		actor.VerifRouterSetCounter(pid, uint32(0)-uint32(in.Preset))
+		vh := in.VH
+		if vh == nil {
+			vh = map[string][]int{}
+		}
+		kh := in.KH
+		if kh == nil {
+			kh = map[string]int{}
+		}
+		rr.emit(rop{Op: "New", R: in.Pool, Key: "-", D: in.Preset}, []int{},
+			map[string]any{"strategy": in.Strategy, "vh": vh, "kh": kh, "vn": in.VN, "hasher": in.Hasher})
+
+		for _, o := range b[1:] {
+			rep := o.Rep
+			if rep < 1 {
+				rep = 1
+			}
+			for ; rep > 0; rep-- {
+				to := []int{}
+				switch o.Op {
+				case "Send":
+					rr.nextID++
+					sent++
+					id := rr.nextID
+					liveBefore := rr.alive()
+					err := actor.Tell(ctx, pid, actor.NewBroadcast(&routedMsg{ID: id, Key: o.Key}))
+					if err == nil {
+						rr.settle()
+						if in.Strategy == "fanout" {
+							// fan-out tells from goroutines: wait for every live routee, bounded
+							waitFor(3*time.Second, func() bool { return len(rec.receivers(name+"Routee", id)) >= len(liveBefore) })
+							time.Sleep(200 * time.Microsecond)
+						}
+						rr.settleRoutees()
+					}
+					to = rr.indices(rec.receivers(name+"Routee", id))
+				case "Die":
+					if p := rr.routee(o.R); p != nil {
+						_ = actor.Tell(ctx, p, &actor.PoisonPill{})
+						// stopped and removed from the actor tree (the death watch cleans up asynchronously)
+						if !waitFor(5*time.Second, func() bool { return !p.IsRunning() && !rr.inTree(o.R) }) {
+							drift++
+						}
+					}
+				case "Fail":
+					if p := rr.routee(o.R); p != nil {
+						_ = actor.Tell(ctx, p, &boomMsg{})
+						if !waitFor(5*time.Second, func() bool {
+							if p.IsRunning() || rr.inTree(o.R) {
+								return false
+							}
+							m, _ := actor.VerifRouterMembers(pid)
+							for _, n := range m {
+								if rr.index(n) == o.R {
+									return false
+								}
+							}
+							return actor.VerifQuiescent(pid)
+						}) {
+							drift++
+						}
+					}
+				case "Adjust":
+					_ = actor.Tell(ctx, pid, actor.NewAdjustRouterPoolSize(int32(o.D)))
+					rr.settle()
+					rr.settleRoutees()
+				case "GetRoutees":
+					resp, err := actor.Ask(ctx, pid, &actor.GetRoutees{}, 5*time.Second)
+					if err == nil {
+						if rs, ok := resp.(*actor.Routees); ok {
+							to = rr.indices(rs.Names())
+						}
+					}
+					rr.settle()
+				default:
+					die("unknown op %s", o.Op)
+				}
+				rr.emit(o, to, nil)
+			}
+		}
+		// end of behaviour: late or duplicate deliveries show up in the totals
+		time.Sleep(300 * time.Microsecond)
+		rr.settleRoutees()
+		counts := make([]int, maxPool)
+		for i := 0; i < maxPool; i++ {
+			counts[i] = rec.total(actor.VerifRouteeName(name, i))
+		}
+		rr.emit(rop{Op: "End", R: -1, Key: "-"}, []int{}, map[string]any{"counts": counts})
+		if pid.IsRunning() {
+			_ = pid.Shutdown(ctx)
+		}
+	}
+	_ = sys.Stop(ctx)
+	n := w.Count()
+	if err := w.Close(); err != nil {
+		die("%v", err)
+	}
+	out, _ := json.Marshal(map[string]any{"behaviours": len(behaviours), "events": n, "sent": sent, "waits_expired": drift, "orphan_retries": orphanRetries})
+	fmt.Println(string(out))
+	os.Stdout.Sync()
+}
+
